@@ -832,6 +832,11 @@ def _work(job):
     # BLAS threads are limited by the caller's environment (./check exports OMP_NUM_THREADS=1)
     from . import exprcheck as X
     X.guarded = _robust_guarded          # this worker process only
+    import sys
+    def hook(u):                         # a watchdog tick that lands in a weakref callback is reported as 'unraisable': not an event
+        if not isinstance(u.exc_value, X.Hang):
+            sys.__unraisablehook__(u)
+    sys.unraisablehook = hook
     try:
         return (_par_worker if job[0] == 'par' else _enum_worker)(job[1:])
     except BaseException as e:   # a crash of the harness worker must surface as such, not as a verdict
@@ -848,7 +853,7 @@ class Streams:
         self.nenum = 10 if quick else 12
         self.npar = 2 if quick else 4
         budget = budget or (30 if quick else 600)
-        hardcap = 80 if quick else 1000
+        hardcap = 150 if quick else 1000
         seed = (c.seed * 1000003 + 0xC02) & 0x7fffffff
         jobs = [('par', seed, w, self.npar, c.tier, budget + (10 if quick else 200)) for w in range(self.npar)]
         jobs += [('enum', seed + 17 + w, w, self.nenum, c.tier, budget, 2 if quick else 3, hardcap) for w in range(self.nenum)]
